@@ -292,7 +292,9 @@ EXPLANATION = (
     "value key (modelValue | arg | [arg]), modifiers key (modelModifiers | arg+\"Modifiers\" | [arg+\"Modifiers\"]), listener key "
     "(\"onUpdate:modelValue\" | \"onUpdate:\"+arg | [\"onUpdate:\"+arg]); the computed listener arm uses \"onUpdate\" without the colon "
     "(known finding, pinned). R05.2: listener template. R05.3: the model-directive table. R05.4: v-models decoupling shape. R05.5: the "
-    "two null-argument placeholders in the v-model parser have the same guard. R01.1 (host classes) and R11.3 (order) are shared."
+    "two null-argument placeholders in the v-model parser have the same guard. R05.6: a function that reads a template literal's quasis also reads its substitutions "
+    "(a `type` given as a template with `${..}` is never taken for a static string); zero instances today, positive control in the thorough tier. "
+    "R01.1 (host classes) and R11.3 (order) are shared."
 )
 ASSUMPTIONS = ["that invoking the listener assigns (evaluation) is not modelled"]
 TRUSTED = ["rustc nightly typed HIR"]
